@@ -22,58 +22,61 @@ EXPLANATION = (
 
 PLANNER_BACKENDS = ('@backend_flat_xor_hd', '@backend_liberasurecode_rs_vand', '@backend_isa_l_rs_vand')
 
+def planner_value_check(P, f):
+    """-> (problem text or None, number of list pairs evaluated); raises consteval.Undecidable"""
+    from ..consteval import ConstEval
+    K, M = 3, 2
+    N = K + M
+    lists = [()] + [(a,) for a in range(N)] + [(a, b) for a in range(N) for b in range(N)] + [(0, 1, 0), (4, 4, 1)]
+    st = [i.gep_base_ty for i in f.insts() if i.op == 'getelementptr' and (i.gep_base_ty or '').startswith('%struct.')]
+    if not st:
+        raise AnalysisBroken(f'anchor vanished: {f.name} does not read its descriptor')
+    cname = st[0][len('%struct.'):]
+    ik, im = P.field_index(cname, 'k'), P.field_index(cname, 'm')
+    CE = ConstEval(P, f.mod)
+    bad, nev = None, 0
+    for R in lists:
+        if not R:
+            continue
+        for X in lists:
+            objs = {'desc': {(ik,): K, (im,): M},
+                    'R': {(n_,): v for n_, v in enumerate(R + (-1,))}, 'X': {(n_,): v for n_, v in enumerate(X + (-1,))},
+                    'N': {(n_,): -99 for n_ in range(N + 1)}}
+            def hook(ins, args, objs=objs):
+                g_ = P.fns.get(ins.callee)
+                if g_ is not None and g_.order:
+                    return ConstEval(P, g_.mod).run(g_, args, objs=objs, call_hook=hook)['ret']
+                return None
+            res = CE.run(f, [('obj', 'desc', ()), ('obj', 'R', ()), ('obj', 'X', ()), ('obj', 'N', ())], objs=objs, call_hook=hook)
+            nev += 1
+            avail = [i for i in range(N) if i not in R and i not in X]
+            out = [res['objects']['N'].get((n_,)) for n_ in range(N + 1)]
+            if len(avail) >= K:
+                want = avail[:K] + [-1]
+                if res['ret'] != 0 or out[:K + 1] != want:
+                    bad = f'k={K}, m={M}, to reconstruct {list(R)}, to exclude {list(X)}: returns {res["ret"]} with list {out[:K + 1]}, expected 0 with {want}'
+            elif res['ret'] is None or res['ret'] >= 0:
+                bad = f'k={K}, m={M}, to reconstruct {list(R)}, to exclude {list(X)}: only {len(avail)} fragments remain but the planner returns {res["ret"]}'
+            if bad:
+                return bad, nev
+    return None, nev
+
 def rule_rs_planner_values(ctx, P, r, backends):
     """R06m: the Reed-Solomon style planners (first k indexes that are neither requested nor excluded) decided as value functions:
     constant propagation through the planner's IR for a (3,2) shape and every pair of short lists - overlapping, duplicated,
     empty - against the specification: success with the first k available indexes in ascending order and a -1 terminator when at
     least k fragments remain, a negative value otherwise.  No library code runs."""
-    from ..consteval import ConstEval, Undecidable
-    import itertools
+    from ..consteval import Undecidable
     cg = callgraph.get(P)
     seen = set()
-    K, M = 3, 2
-    N = K + M
-    lists = [()] + [(a,) for a in range(N)] + [(a, b) for a in range(N) for b in range(N)] + [(0, 1, 0), (4, 4, 1)]
     for be in backends:
         c = cg.common[be]
         f = P.fn(cg.op_tables[c['ops']]['fragments_needed'])
         if f.name in seen:
             continue
         seen.add(f.name)
-        st = [i.gep_base_ty for i in f.insts() if i.op == 'getelementptr' and (i.gep_base_ty or '').startswith('%struct.')]
-        if not st:
-            raise AnalysisBroken(f'anchor vanished: {f.name} does not read its descriptor')
-        cname = st[0][len('%struct.'):]
-        ik, im = P.field_index(cname, 'k'), P.field_index(cname, 'm')
-        CE = ConstEval(P, f.mod)
-        bad, nev = None, 0
         try:
-            for R in lists:
-                if not R:
-                    continue
-                for X in lists:
-                    objs = {'desc': {(ik,): K, (im,): M},
-                            'R': {(n_,): v for n_, v in enumerate(R + (-1,))}, 'X': {(n_,): v for n_, v in enumerate(X + (-1,))},
-                            'N': {(n_,): -99 for n_ in range(N + 1)}}
-                    def hook(ins, args, objs=objs):
-                        g_ = P.fns.get(ins.callee)
-                        if g_ is not None and g_.order:
-                            return ConstEval(P, g_.mod).run(g_, args, objs=objs, call_hook=hook)['ret']
-                        return None
-                    res = CE.run(f, [('obj', 'desc', ()), ('obj', 'R', ()), ('obj', 'X', ()), ('obj', 'N', ())], objs=objs, call_hook=hook)
-                    nev += 1
-                    avail = [i for i in range(N) if i not in R and i not in X]
-                    out = [res['objects']['N'].get((n_,)) for n_ in range(N + 1)]
-                    if len(avail) >= K:
-                        want = avail[:K] + [-1]
-                        if res['ret'] != 0 or out[:K + 1] != want:
-                            bad = f'k={K}, m={M}, to reconstruct {list(R)}, to exclude {list(X)}: returns {res["ret"]} with list {out[:K + 1]}, expected 0 with {want}'
-                    elif res['ret'] is None or res['ret'] >= 0:
-                        bad = f'k={K}, m={M}, to reconstruct {list(R)}, to exclude {list(X)}: only {len(avail)} fragments remain but the planner returns {res["ret"]}'
-                    if bad:
-                        break
-                if bad:
-                    break
+            bad, nev = planner_value_check(P, f)
         except Undecidable as e:
             r.undecided(f'{f.name}: planner value function', loc=f.mod.src, msg=str(e))
             continue
@@ -202,7 +205,17 @@ def rule_planners(ctx, P, rc, rd, backends):
                         'as the last scanned one the loop ends without the test, and the call returns -1 with an unterminated list although k fragments are available')
             continue
         if pos is None or not tests:
-            rd.fail(inst, func=f.name, sig='no count/k test in the loop', loc=s0.loc, msg='the planner never compares the number of collected fragments with k')
+            # the count may be kept in another form (a count-down of fragments still needed, ...): decide the planner by value
+            try:
+                from ..consteval import Undecidable as _Und
+                badv, nevv = planner_value_check(P, f)
+            except Exception as e_:
+                badv, nevv = 'not decidable by value: ' + str(e_)[:80], 0
+            if badv is None:
+                for _n in range(4):
+                    rd.ok(inst + f' (count kept in another form; decided as a value function on {nevv} list pairs, see R06m)' + ('' if not _n else f' [{_n}]'), func=f.name, loc=s0.loc, trivial=bool(_n))
+                continue
+            rd.fail(inst, func=f.name, sig='no count/k test in the loop', loc=s0.loc, msg='the planner never compares the number of collected fragments with k (' + badv + ')')
             continue
         tb, tc, tt = tests[0]
         esc = reaches_without(f, s0.bb, lambda i: i.bb not in body, lambda i: i is tc, s0.idx + 1)
